@@ -234,6 +234,55 @@ def gc_twopass_templates():
     return out
 
 
+def gc_layout_templates():
+    """Every layout of three files before the head - each FULL or left SHORT by a restart, with or without garbage -
+    and every GC range over them: the destination choice (nearest earlier file that is not full, else the slot after
+    it, else in place) meets a full and a short predecessor in both orders, and the live data of the range is larger
+    than the room of any single earlier file (so a wrong choice spills into a second file outside the range)."""
+    import itertools
+    fm = 3
+    out = []
+    n = 0
+    for fills in itertools.product('SF', repeat=3):
+        for garbage in (False, True):
+            for g in ((1, 1), (1, 2), (2, 2), (2, -1), (1, -1), (0, -1), (0, 1)):
+                ops = []
+                v = [0]
+                fresh = [0]
+
+                def st(k):
+                    v[0] += 1
+                    return {'op': 'set', 'k': k, 'v': v[0] % 7 + 1, 'nblk': 1}
+
+                def newkey():
+                    fresh[0] += 1
+                    return 'k%d' % fresh[0]
+                prev = []
+                for fi, fill in enumerate(fills):
+                    cnt = fm if fill == 'F' else 1
+                    mine = []
+                    for i in range(cnt):
+                        if garbage and i == 0 and prev:
+                            k = prev[0]              # supersedes a record of the previous file
+                        else:
+                            k = newkey()
+                        mine.append(k)
+                        ops.append(st(k))
+                    prev = mine
+                    if fill == 'S':
+                        ops += [{'op': 'close'}, {'op': 'open', 'rm': []}]
+                    # (a full file rotates by itself with the next write)
+                ops += [st(newkey()), {'op': 'flush'},
+                        {'op': 'gc', 'begin': g[0], 'end': g[1], 'merge': False, 'twice': True},
+                        {'op': 'readall'}, {'op': 'close'}, {'op': 'open', 'rm': ['*.idx.*']}, {'op': 'readall'}]
+                out.append({'id': 'gcl-%03d' % n, 'family': 'seq',
+                            'conf': {'filemax_blk': fm, 'splitcap': 3, 'rotflush': 'auto', 'bodymax_blk': 1,
+                                     'buckets': 16, 'bucket': 15, 'height': 3, 'micro': False},
+                            'ops': ops})
+                n += 1
+    return out
+
+
 def gen_batch(seed, count, focus, prefix):
     rng = random.Random(seed)
     out = []
